@@ -241,7 +241,7 @@ pub fn put() -> impl Strategy<Value = PutSpec> {
 
 pub fn upd() -> impl Strategy<Value = UpdSpec> {
     (any::<u16>(), prop::option::weighted(0.6, (any::<u32>(), 3u32..40)), prop::option::weighted(0.4, any::<u32>()), any::<bool>(), prop::option::weighted(0.3, 0i64..20), prop_oneof![3 => Just(vec![]), 1 => Just(vec!["green".to_string()])])
-        .prop_map(|(target, p, emb, new_title, new_ts, new_tags)| UpdSpec { target, payload: p.map(|(s, w)| text_payload(s, w)), emb, new_title, new_ts, new_tags })
+        .prop_map(|(target, p, emb, new_title, new_ts, new_tags)| UpdSpec { target, payload: p.map(|(s, w)| text_payload(s, w)), emb, new_title, new_ts, new_tags, allow_busy: false })
 }
 
 fn op() -> impl Strategy<Value = Op> {
